@@ -201,3 +201,40 @@ func ControllingConds(in ssa.Instruction) []Assumption {
 	}
 	return out
 }
+
+// CallReaches reports whether the call instruction resolves to pred, runs a function literal containing such a call
+// (CallsDeep), or statically calls a module function whose body (closures included) reaches one within depth further calls.
+func CallReaches(in ssa.Instruction, pred func(ssa.CallInstruction) bool, depth int) bool {
+	if CallsDeep(in, pred) {
+		return true
+	}
+	c, ok := in.(ssa.CallInstruction)
+	if !ok || depth <= 0 {
+		return false
+	}
+	var targets []*ssa.Function
+	if sf := c.Common().StaticCallee(); sf != nil && InModFn(sf) && len(sf.Blocks) > 0 {
+		targets = append(targets, sf)
+	}
+	// function literals handed over as arguments may themselves call helpers
+	for _, a := range c.Common().Args {
+		if mc, ok := Unwrap(a).(*ssa.MakeClosure); ok {
+			targets = append(targets, mc.Fn.(*ssa.Function))
+		}
+	}
+	for _, t := range targets {
+		hit := false
+		Instrs(t, true, func(x ssa.Instruction) {
+			if hit {
+				return
+			}
+			if _, isCall := x.(ssa.CallInstruction); isCall && CallReaches(x, pred, depth-1) {
+				hit = true
+			}
+		})
+		if hit {
+			return true
+		}
+	}
+	return false
+}
